@@ -30,7 +30,7 @@ TESTED_ONLY = {
  'C13': ['deletion of the whole star across indices, complexes() as a whole, addSimplexWithBasis and copy() on a filtration (shadow-log oracle c13); monotone views, births, views closed under faces, closed snapshots and the indices() / simplicesAddedAtIndex bookkeeping are proved for every history'],
  'C14': ['per-order counts as lists, Betti numbers of the index-aware queries against the snapshot (oracle c14 per query; membership / order / faces of visible simplices, the listings per order and as a whole, the total count and the Euler characteristic are proved for every filtration history); setMinimumIndex / setMaximumIndex'],
  'C15': ["relabelDisjointFrom renaming only collisions, addSimplicesFrom under a renaming being an isomorphic copy (oracle c15-pre/post); names-only, structure carried, Betti invariance, the renaming being the user's (m.get(s, s) for a dict), the returned mapping listing exactly the changed names, the attribute dictionaries following the names, and the at-most-once call are proved"],
- 'C16': ['merged attribute values, target complexes (oracle c16); result = union, accepted => compatible and compatible => accepted (for complexes that meet the vertex-set reading) are proved'],
+ 'C16': ['target complexes (oracle c16); result = union, accepted => compatible and compatible => accepted (for complexes that meet the vertex-set reading), and the attribute values of the result (merge = update with the second operand, new cells only) are proved'],
  'C17': ['the JSON text layer (json.dumps / loads, files), name types, nested / unicode attribute values, wrapping in other JSON, filtrations (oracle c17); the structural round trip and acceptance of every encoding by the decoder are proved at the level of the encoded records'],
  'C18': ['Betti numbers beyond k = 6; skeleton / ring / lattice on arbitrary targets beyond 3 points; requested name / attributes of the top simplex on non-empty targets (oracle c18); k_simplex / k_void in vertex sets with the frame clause and their binomial counts are proved for every k and every target that meets the vertex-set reading'],
  'C19': ['input unchanged, complexes built out of contract, that a composition of name-disjoint complexes is a disjoint union with the attribute values (oracle c19); the level-set and simplex-wise formulas with the default value and additivity over disjoint unions are proved for every complex that meets the vertex-set reading, Euler characteristic = alternating Betti sum for every history'],
